@@ -78,7 +78,13 @@ def run_case(case):
     header = rng.sample(['alpha', 'b', 'C', 'delta', 'e1', 'Ünï', 'g h'], ncols)
     hclass = 'unique'
     if fam == 'dup_headers' and ncols >= 2:
-        hclass = rng.choice(['exact', 'case', 'triple'])
+        hclass = rng.choice(['exact', 'case', 'triple', 'many', 'two_groups'])
+        if hclass == 'many' and ncols >= 4:
+            header = [header[0]] * ncols if rng.random() < 0.5 else [header[0]] * (ncols - 1) + [header[-1]]
+        elif hclass == 'two_groups' and ncols >= 5:
+            header = [header[0], header[1]] * (ncols // 2) + ([header[2]] if ncols % 2 else [])
+        elif hclass in ('many', 'two_groups'):
+            hclass = 'exact'
         if hclass == 'exact':
             header[1] = header[0]
         elif hclass == 'case':
@@ -123,6 +129,8 @@ def run_case(case):
     assert t_header == header and t_rows == rows
     strip = rng.random() < 0.5
     limit = rng.choice([None, None, 1, max(1, nrows - 1), max(1, nrows), nrows + 5])
+    if fam == 'cast_schema' and bad_rows and rng.random() < 0.5:
+        limit = max(1, min(bad_rows))       # the first offending row is the one right AFTER the limit
     name = rng.choice([None, 'custom-name'])
     kw = {'strip': strip}
     if delim != ',':
